@@ -97,6 +97,10 @@ class Check:
                     self.probes["runs_with_preemption_at_loop_heads"] = self.probes.get("runs_with_preemption_at_loop_heads", 0) + 1
                     self.probes["preempt_yields"] = self.probes.get("preempt_yields", 0) + (r.sites.get("preempt", 0))
                 self.policies[pol] = self.policies.get(pol, 0) + 1
+                if getattr(r, "map_checks", 0):
+                    self.probes["shared_map_accesses_checked"] = self.probes.get("shared_map_accesses_checked", 0) + r.map_checks
+                    if r.map_shared:
+                        self.probes["runs_with_a_map_touched_by_two_goroutines"] = self.probes.get("runs_with_a_map_touched_by_two_goroutines", 0) + 1
                 for f in r.fired:
                     k = f["kind"] + ":" + f["what"].split(" ")[0]
                     kk = f["kind"]
